@@ -110,7 +110,11 @@ type stageCase struct {
 	nilIn   bool
 	planned []int
 	incap   int
-	mode    int // cancellation: 0 never, 1 consumer after k outputs, 2 producer after k hand-overs, 3 timer, 4 before start
+	mode    int // cancellation: 0 never, 1 consumer after k outputs, 2 producer after k hand-overs, 3 timer, 4 before start,
+	// 5 producer hands over k values, goes silent for ever (never closes), then cancel: the stage is blocked on a RECEIVE site
+	apply    func([]int) []int // Go-side reference of the combinator's list function (only used to place the abandon scenario)
+	abandonJ int               // >= 0: abandon scenario (runAbandon): the consumer reads exactly j values and never reads again
+	need     int               // abandon: inputs to hand over so that output j+1 is pending at a SEND site
 	k       int
 	pause   bool
 	mk      func(ctx context.Context, in chan int) <-chan int
@@ -129,6 +133,58 @@ func genStage(r *vhlib.Rng, which int) *stageCase {
 		nn = 0 // for i := 0; i < num: a negative num behaves as 0
 	}
 	p := genPred(r)
+	c.abandonJ = -1
+	filt := func(keep func(int) bool) func([]int) []int {
+		return func(vs []int) []int {
+			var o []int
+			for _, v := range vs {
+				if keep(v) {
+					o = append(o, v)
+				}
+			}
+			return o
+		}
+	}
+	switch which {
+	case 0:
+		c.apply = func(vs []int) []int { return vs }
+	case 1:
+		c.apply = func(vs []int) []int {
+			if nn < len(vs) {
+				return vs[:nn]
+			}
+			return vs
+		}
+	case 2:
+		c.apply = filt(p.eval)
+	case 3:
+		c.apply = func(vs []int) []int {
+			for _, v := range vs {
+				if p.eval(v) {
+					return []int{v}
+				}
+			}
+			return nil
+		}
+	case 4:
+		c.apply = func(vs []int) []int {
+			if nn < len(vs) {
+				return vs[nn:]
+			}
+			return nil
+		}
+	case 5:
+		c.apply = filt(func(v int) bool { return !p.eval(v) })
+	case 6:
+		c.apply = func(vs []int) []int {
+			for i, v := range vs {
+				if !p.eval(v) {
+					return vs[i:]
+				}
+			}
+			return nil
+		}
+	}
 	switch which {
 	case 0:
 		c.name, c.coq, c.aware = "Stream", "CStream", true
@@ -167,7 +223,7 @@ func genStage(r *vhlib.Rng, which int) *stageCase {
 		c.mk = func(_ context.Context, in chan int) <-chan int { return bc.Pipeline[int](in) }
 	}
 	if c.aware {
-		switch r.Intn(10) {
+		switch r.Intn(12) {
 		case 0, 1, 2, 3:
 			c.mode = 0
 		case 4, 5:
@@ -176,8 +232,13 @@ func genStage(r *vhlib.Rng, which int) *stageCase {
 			c.mode, c.k = 2, r.Range(0, len(c.planned))
 		case 8:
 			c.mode = 3
-		default:
+		case 9:
 			c.mode = 4
+		default:
+			c.mode, c.k = 5, r.Range(0, len(c.planned))
+			if which == 0 { // Stream has no input channel
+				c.mode = 1
+			}
 		}
 		c.pause = r.Chance(1, 3)
 	}
@@ -215,6 +276,9 @@ func (c *stageCase) run() {
 				doCancel()
 			}
 			for _, v := range c.planned {
+				if c.mode == 5 && handed == c.k {
+					break
+				}
 				delay(rp)
 				select {
 				case in <- v:
@@ -225,6 +289,12 @@ func (c *stageCase) run() {
 				case <-stop:
 					return
 				}
+			}
+			if c.mode == 5 { // silent producer: the input is never closed; only ctx can end the stage
+				delay(rp)
+				doCancel()
+				<-stop
+				return
 			}
 			close(in)
 		}()
@@ -276,6 +346,128 @@ loop:
 		c.incap = len(c.planned)
 	} else {
 		c.ins = c.planned[:handed]
+	}
+}
+
+// runAbandon: the blocked-on-SEND states of stage_cancel, one send site at a time. The consumer reads exactly
+// abandonJ values and never reads again; the producer hands over exactly the inputs that make output abandonJ+1
+// pending and goes silent; then cancel. Nobody will ever take the pending value, so only the ctx case of the
+// send's select can end the goroutine: it must be gone (NumGoroutine back to the level before the run) within the
+// deadline, and the output must then be closed. Runs sequentially on the calling goroutine (NumGoroutine is global).
+// Returns true when the goroutine leaked.
+func (c *stageCase) runAbandon() bool {
+	r := vhlib.NewRng(c.seed)
+	base := runtime.NumGoroutine()
+	ctx, cancel := context.WithCancel(context.Background())
+	defer cancel()
+	isStream := c.name == "Stream"
+	var in chan int
+	if !isStream {
+		in = make(chan int)
+	}
+	c.incap = 0
+	out := c.mk(ctx, in)
+	stop := make(chan struct{})
+	handedAll := make(chan struct{})
+	var wg sync.WaitGroup
+	handed := 0
+	if in != nil {
+		wg.Add(1)
+		go func() {
+			defer wg.Done()
+			for _, v := range c.planned[:c.need] {
+				select {
+				case in <- v:
+					handed++
+				case <-stop:
+					return
+				}
+			}
+			close(handedAll)
+			<-stop
+		}()
+	} else {
+		close(handedAll)
+	}
+	dl := time.NewTimer(closeDeadline)
+	defer dl.Stop()
+	early := false
+	for len(c.outs) < c.abandonJ && !early {
+		select {
+		case v, ok := <-out:
+			if !ok {
+				early = true
+				break
+			}
+			c.outs = append(c.outs, v)
+		case <-dl.C:
+			early = true
+		}
+	}
+	select {
+	case <-handedAll:
+	case <-dl.C:
+	}
+	switch r.Intn(4) { // let the stage reach its send (or not: a stage that is not there yet must honour ctx all the same)
+	case 0:
+	case 1:
+		runtime.Gosched()
+	default:
+		time.Sleep(time.Duration(r.Range(5, 150)) * time.Microsecond)
+	}
+	cancel()
+	c.cancelled = true
+	close(stop)
+	wg.Wait()
+	_, ok := settle(base)
+	if ok { // the goroutine is gone: whatever is left in out can be read without blocking
+		for v := range out {
+			c.outs = append(c.outs, v)
+		}
+		c.closed = true
+	} else { // rescue the stuck sender so that later runs start from a clean level
+		t := time.NewTimer(200 * time.Millisecond)
+	rescue:
+		for {
+			select {
+			case _, ok := <-out:
+				if !ok {
+					break rescue
+				}
+			case <-t.C:
+				break rescue
+			}
+		}
+		t.Stop()
+		settle(base)
+	}
+	if isStream {
+		c.ins = c.planned
+		c.incap = len(c.planned)
+	} else {
+		c.ins = c.planned[:handed]
+	}
+	return !ok
+}
+
+// genAbandon draws a stage whose list function yields at least j+1 outputs on its planned input.
+func genAbandon(r *vhlib.Rng, which int) *stageCase {
+	for {
+		c := genStage(r, which)
+		outs := c.apply(c.planned)
+		if len(outs) == 0 {
+			continue
+		}
+		j := []int{0, 0, 0, 1, 1, 2, 3}[r.Intn(7)]
+		if j >= len(outs) {
+			j = len(outs) - 1
+		}
+		need := 0
+		for need <= len(c.planned) && len(c.apply(c.planned[:need])) < j+1 {
+			need++
+		}
+		c.abandonJ, c.need, c.mode, c.k = j, need, 6, j
+		return c
 	}
 }
 
@@ -618,8 +810,10 @@ func main() {
 	w := vhlib.NewWriter(o.Out, "From VF Require Import C18.Stage C18.Check.\nLocal Open Scope Z_scope.", "case", "mismatches", 400)
 	reps := 500
 	par := 12
+	nAbandon := 120
 	if o.Thorough() {
 		reps = 6000
+		nAbandon = 1500
 	}
 	stageNames := []string{"Stream", "TaskN", "TaskFn", "TaskWhile", "SkipN", "SkipFn", "SkipWhile", "MapChan", "Pipeline"}
 	cancelled, complete := 0, 0
@@ -632,6 +826,17 @@ func main() {
 			jobs[i] = cs[i].run
 		}
 		runBatch(w, name, jobs, par)
+		if which <= 6 { // ctx-aware: the blocked-on-send scenarios, sequentially
+			settle(runtime.NumGoroutine())
+			for i := 0; i < nAbandon; i++ {
+				c := genAbandon(rng, which)
+				if c.runAbandon() {
+					w.Violation(name, "goroutine leak", map[string]interface{}{"scenario": "consumer stopped after j values, cancel while value j+1 is pending at the send",
+						"j": c.abandonJ, "coq": c.coq, "planned": c.planned, "handed": c.ins, "received": c.outs})
+				}
+				cs = append(cs, c)
+			}
+		}
 		for _, c := range cs {
 			if c.cancelToClose > maxC2C {
 				maxC2C = c.cancelToClose
@@ -642,7 +847,7 @@ func main() {
 				complete++
 			}
 			w.Case(c.term(), c.name, len(c.ins) > 0, nil, map[string]interface{}{"combinator": c.name, "coq": c.coq,
-				"planned": c.planned, "incap": c.incap, "cancel_mode": c.mode, "cancel_k": c.k, "nil_in": c.nilIn, "run_seed": c.seed,
+				"planned": c.planned, "incap": c.incap, "cancel_mode": c.mode, "cancel_k": c.k, "abandon_j": c.abandonJ, "nil_in": c.nilIn, "run_seed": c.seed,
 				"observed": map[string]interface{}{"ins": c.ins, "outs": c.outs, "closed": c.closed, "cancelled": c.cancelled}})
 		}
 	}
